@@ -6,7 +6,7 @@ from ..facts import AnalysisBroken
 from ..finite import compile_expr, NotPure, dominating_facts, interval_of
 from ..rules import common
 from ..window import lin, form, show_form, guard_ops, TOP
-from ..expr import is_assign, assign_parts as _ap
+from ..expr import is_assign, assign_parts as _ap, strip_views
 
 
 def assign_parts(n):
@@ -835,9 +835,101 @@ def r5(ctx, r):
         raise AnalysisBroken("only %d loops found in JsonParser (floor 8)" % n)
 
 
+CONVERTERS = ("strtod", "strtold", "strtof", "stod", "stold", "atof", "from_chars", "sscanf", "strtoll", "strtol", "stoll", "atoll")
+
+
+def r6(ctx, r):
+    """the number conversions operate on the whole scanned literal"""
+    fb = ctx.fb()
+    pn = jp(ctx, "_parseNumber")
+    nd = [v for e in pn.stmts() if e.node.get("k") == "decl" for v in e.node["vars"] if v.get("init") is not None and strip_views(v["init"]).get("k") == "mcall" and last(strip_views(v["init"]).get("callee", "")) == "substr" and is_text(strip_views(v["init"]).get("obj"))]
+    if len(nd) != 1:
+        raise AnalysisBroken("_parseNumber: the scanned literal is not held in exactly one substr() view (%d)" % len(nd))
+    lit = nd[0]["n"]
+    sub = strip_views(nd[0]["init"])
+    st = key_of_var(sub["args"][0])
+    stdecl = [v for e in pn.stmts() if e.node.get("k") == "decl" for v in e.node["vars"] if v["n"] == st]
+    r.instance()
+    ln = lin(sub["args"][1]) if len(sub["args"]) > 1 else None
+    r.expect(bool(stdecl) and is_pos(stdecl[0].get("init") or {}) and ln is not None and ln[0] == 0 and sorted(ln[1]) == sorted([CUR]) or (bool(stdecl) and is_pos(stdecl[0].get("init") or {}) and "_pos - " + st in show(sub["args"][1])), pn, None, "literal range",
+             "the literal handed to the converters is not _text.substr(start, _pos - start) with start = the cursor at entry", okdesc="literal = [start, _pos)")
+    # conversions in _parseNumber and in helpers that receive the literal
+    work, seen, sites = [(pn, lit)], set(), []
+    while work:
+        f, v = work.pop()
+        if (f.name, v) in seen:
+            continue
+        seen.add((f.name, v))
+        for e in f.stmts():
+            n = e.node
+            if n.get("k") in ("call", "mcall") and last(n.get("callee", "")) in CONVERTERS:
+                sites.append((f, e, v))
+            c = n.get("callee") or ""
+            if n.get("k") in ("call", "mcall") and (c.startswith(JP + "::") or c.startswith(JS + "::")) and last(c) not in ("_parseNumber",):
+                for i, a in enumerate(n.get("args", [])):
+                    if key_of_var(strip_views(a)) == v:
+                        for g in fb.funcs(c, JF):
+                            if g.ok and i < len(g.params) and g.params[i].get("n"):
+                                work.append((g, g.params[i]["n"]))
+    if len(sites) < 2:
+        raise AnalysisBroken("only %d numeric conversion sites found behind _parseNumber (floor 2)" % len(sites))
+    for (f, e, v) in sites:
+        n = e.node
+        nm = last(n["callee"])
+        r.instance()
+        a0 = strip_casts(strip_wrappers(n["args"][0]))
+        ok, why = False, "its source `%s` is not the whole literal" % show(a0)[:50]
+        if nm == "from_chars":
+            a1 = n["args"][1]
+            ok = show(a0) == v + ".data()" and show(strip_casts(a1)).replace(" ", "") in ((v + ".data()+" + v + ".size()").replace(" ", ""),)
+            why = "the range is not [%s.data(), %s.data() + %s.size())" % (v, v, v)
+        else:
+            # c_str()/data() of a std::string constructed from the whole view
+            if a0.get("k") == "mcall" and last(a0.get("callee", "")) in ("c_str", "data"):
+                src = strip_casts(strip_wrappers(a0.get("obj")))
+                while src is not None and src.get("k") == "ctor" and src.get("cls") == "std::basic_string":
+                    args = [x for x in src.get("args", []) if not x.get("def")]
+                    if len(args) == 1:
+                        src = strip_casts(strip_wrappers(args[0]))
+                    else:
+                        why = "the string is built from %d arguments (a length-limited copy)" % len(args)
+                        src = None
+                        break
+                if src is not None and src.get("k") == "var" and src["n"] == v:
+                    ok = True
+                elif src is not None and src.get("k") == "var":
+                    # a local std::string: every definition must be the whole view
+                    defs = [x.get("init") for d in f.stmts() if d.node.get("k") == "decl" for x in d.node["vars"] if x["n"] == src["n"]]
+                    ok = bool(defs) and all(dd is not None and key_of_var(strip_views(dd)) == v for dd in defs)
+            elif a0.get("k") == "var" and "[" in (a0.get("t") or ""):
+                why = "it converts from the fixed-size buffer `%s` (%s): a literal longer than the buffer is truncated and decodes to a different number" % (a0["n"], a0.get("t"))
+        r.expect(ok, f, e, "number converted from part of the literal: %s" % nm, "%s converts the number with %s, but %s — valid long literals (70-digit integers, long mantissas with an exponent) decode to a value other than the reference decoder's"
+                 % (last(f.name), nm, why), okdesc="%s: %s over the whole literal" % (last(f.name), nm))
+
+
+def key_of_var(n):
+    n = strip_casts(n) if n is not None else None
+    return n["n"] if n is not None and n.get("k") == "var" else None
+
+
+
+def anchors(ctx, r):
+    fb = ctx.fb()
+    tab = [(jp(ctx, "_parseValue"), ["depth"]), (jp(ctx, "_parseArray"), ["arr", "depth"]), (jp(ctx, "_parseObject"), ["obj", "depth"]), (jp(ctx, "_parseString"), ["str", "c"]),
+           (fb.func(JS + "::_escapeString", file_suffix=JF), ["c", "result"]), (jp(ctx, "_appendUtf8"), ["cp", "str"])]
+    for f, names in tab:
+        common.require_names(f, names)
+        r.instance()
+        r.ok("%s: %s" % (last(f.name), ", ".join(names)))
+
+
 def run(ctx, ck):
+    r0 = ck.run_rule("C13-R0", "the local names the rules are anchored on exist (a rename makes the analysis refuse — exit 2 — instead of raising a false alarm)", "anchor table", lambda r: anchors(ctx, r))
+    if r0.broken:
+        return
     ck.run_rule("C13-R1", "parser cursor stays inside the input on every path (reads, advances, error offset)", "A7 interprocedural cursor-window abstract interpretation", lambda r: r1(ctx, r))
     ck.run_rule("C13-R2", "depth and size limits precede recursion and growth", "A2 dominance + loop re-entry search", lambda r: r2(ctx, r))
     ck.run_rule("C13-R3", "escape tables of parser and serializer agree with RFC 8259 and each other; \\u/surrogate/UTF-8 arithmetic exact", "A10 table extraction + exact finite-domain evaluation of pure expressions", lambda r: r3(ctx, r))
     ck.run_rule("C13-R4", "serializer type switch exhaustive; doubles round-trip-safe, finite only, re-parse as Double", "A10 + A2", lambda r: r4(ctx, r))
     ck.run_rule("C13-R5", "every parser loop makes progress", "A2 cycle analysis", lambda r: r5(ctx, r))
+    ck.run_rule("C13-R6", "numeric conversions operate on the whole scanned literal", "A10 dataflow from the literal's view to every converter", lambda r: r6(ctx, r))
